@@ -268,16 +268,28 @@ def ref_eval(nxt, rew, prob, g, thr, test, pol, V0, max_eval):
     return V, False, border, max_eval
 
 
-def greedy_ambiguous(q, scale=None):
-    """True if some state's best two actions are within the borderline tolerance (argmax may differ)."""
+def greedy_ambiguous(q, scale=None, tables=None):
+    """True if some state's argmax could legitimately differ between implementations: another action
+    is within the borderline tolerance of the best one and is not an identical copy of it (identical
+    rows give bitwise-identical Q in any implementation, so 'first maximiser' is then unambiguous)."""
     if q.shape[1] < 2:
         return False
-    srt = np.sort(q, axis=1)
     scale = np.abs(q).max() if scale is None else scale
-    return bool(((srt[:, -1] - srt[:, -2]) <= tol(scale, BORDER)).any())
+    best = q.argmax(1)
+    close = (q.max(1, keepdims=True) - q) <= tol(scale, BORDER)
+    for s_, a in zip(*np.where(close)):
+        if a == best[s_]:
+            continue
+        if tables is None:
+            return True
+        nxt, rew, prob = tables
+        b = best[s_]
+        if not (np.array_equal(nxt[s_, a], nxt[s_, b]) and np.array_equal(rew[s_, a], rew[s_, b]) and np.array_equal(prob[s_, a], prob[s_, b])):
+            return True
+    return False
 
 
-def ref_pi(nxt, rew, prob, g, eps, test, pol0, V0, max_iter, max_eval, reset):
+def ref_pi(nxt, rew, prob, g, eps, test, pol0, V0, max_iter, max_eval, reset, exact=False):
     """mdpax policy iteration.  -> dict(pols=[pol0, pol1..], vals=[V after each eval], n, converged, border, eval_ok=[...])"""
     thr = threshold(eps, g)
     pol = np.array(pol0, dtype=int)
@@ -291,7 +303,7 @@ def ref_pi(nxt, rew, prob, g, eps, test, pol0, V0, max_iter, max_eval, reset):
         eval_ok.append(ok)
         vals.append(V.copy())
         q = q_values(nxt, rew, prob, g, V)
-        if greedy_ambiguous(q):
+        if not exact and greedy_ambiguous(q, tables=(nxt, rew, prob)):
             border = True
         new = q.argmax(1)
         changed = int((new != pol).sum())
